@@ -198,7 +198,10 @@ class Worker:
         c["id"] = cid
         line = json.dumps(c, ensure_ascii=True).encode() + b"\n"
         t0 = time.monotonic()
-        raw, status = self._exchange([line], 1, HANG_CONFIRM_S)
+        # after three confirmed hangs of this worker the verdict no longer depends on further ones:
+        # later candidates get a shorter confirmation so that a tree that hangs often stays checkable
+        confirm_s = HANG_CONFIRM_S if getattr(self, "hangs", 0) < 3 else 20
+        raw, status = self._exchange([line], 1, confirm_s)
         if status == "ok":
             rep = json.loads(raw[0])
             rep["slow_s"] = round(time.monotonic() - t0, 3)
@@ -210,7 +213,8 @@ class Worker:
             self.deaths += 1
             return {"id": cid, "died": desc, "stderr_tail": tail}
         self._kill()
-        return {"id": cid, "hang": True, "confirm_s": HANG_CONFIRM_S}
+        self.hangs = getattr(self, "hangs", 0) + 1
+        return {"id": cid, "hang": True, "confirm_s": confirm_s}
 
     def call(self, cmd, per_op_timeout=20.0):
         return self.call_many([cmd], per_op_timeout=per_op_timeout)[0]
